@@ -9,7 +9,7 @@ import itertools
 from mc import core, par, vloop
 from mc.snap import digest
 
-SETTINGS = ((5, 5, 60), (2, 7, 60), (10, 1, 60), (5, 5, 3), (3, 9, 1))  # (threshold, sleep, max_delay)
+SETTINGS = ((5, 5, 60), (2, 7, 60), (10, 1, 60), (5, 5, 3), (3, 9, 1), (4, 4, 4), (1, 2, 2), (8, 4, 8))  # (threshold, sleep, max_delay)
 OUTS = (("F", None), ("S", 1), ("S", 3), ("S", 10))
 
 
@@ -108,7 +108,8 @@ def _work_backoff_runs(task) -> core.Part:
 def pacing_errors(script, thr, slp, maxd, horizon=None) -> list[str]:
     if horizon is None:
         horizon = 600.0 + 61.0 * len(script)
-    sc = vloop.Scenario([(k, 0, life) for k, life in script] + [("S", 0, None)], threshold=thr, sleep_sec=slp, max_delay=maxd, horizon=horizon).run()
+    sc = vloop.Scenario([(o[0], (o[2] if len(o) > 2 else 0), o[1]) for o in script] + [("S", 0, None)], threshold=thr, sleep_sec=slp, max_delay=maxd,
+                        horizon=horizon + sum((o[2] if len(o) > 2 else 0) for o in script)).run()
     log = [(e[0], e[1], e[2]) for e in sc.log]
     errs = list(dict.fromkeys(sc.problems))
     n = 0  # consecutive failures
@@ -181,6 +182,9 @@ def main(run: core.Run) -> int:
     run.merge(par.pmap(_work_backoff_runs, [(list(range(1, 201))[i::16],) for i in range(16)], seed=run.seed))
     L = 6 if q else 8
     scripts = [s for n in range(1, L + 1) for s in itertools.product(OUTS, repeat=n)]
+    # attempts that take time before they fail or succeed (connect time-outs): pacing is measured from the failure
+    slow = (("F", None, 0.4), ("F", None, 1.5), ("F", None, 10), ("F", None, 61), ("S", 1, 2.5), ("F", None))
+    scripts += [s_ for n in (1, 2, 3, 4) for s_ in itertools.product(slow, repeat=n)]
     # long failure runs to reach the 60 s cap
     scripts += [tuple([("F", None)] * k + [("S", 1)] + [("F", None)] * 2) for k in (30, 64, 65, 70, 100)]  # long outage, reconnect, failures again
     scripts += [tuple([("F", None)] * k) for k in (8, 9, 10)] + [tuple([("F", None)] * 7 + [("S", 1)] + [("F", None)] * 2)]
@@ -191,7 +195,7 @@ def main(run: core.Run) -> int:
     tot.sample({"backoff_sequence": "ffrfff", "expected_delay": "min(4, max_delay) for every max_delay in 1..3600"})
     tot.sample({"script": [["F", None], ["F", None], ["S", 1], ["S", 1]], "setting": {"threshold": 5, "sleep": 5, "max_delay": 60},
                 "expected": "attempt 2 at +1 s, attempt 3 at +2 s, attempt 4 right after the first loss, attempt 5 >= 5 s after the second loss"})
-    run.bounds = {"backoff_depth": 14, "backoff_run_lengths": "f^k, f^k r, f^k r f^j, f^k r f^5 r f^j for k = 1..200", "max_delay": "1..3600 (complete)", "manager_script_length": L, "settings": [list(s) for s in SETTINGS]}
+    run.bounds = {"backoff_depth": 14, "backoff_run_lengths": "f^k, f^k r, f^k r f^j, f^k r f^5 r f^j for k = 1..200", "max_delay": "1..3600 (complete)", "manager_script_length": L, "slow_attempts": "all scripts of <= 4 attempts over failures after 0/0.4/1.5/10/61 s and a success after 2.5 s", "settings": [list(s) for s in SETTINGS]}
     run.assumptions = ["han.meter_connection.datetime is substituted by a shim reading the virtual clock (if that name disappears, loss-timing clauses are skipped)",
                        "scheduling slack: 1e-6 virtual seconds"]
     ex = tot.c.get("executions", 0) + tot.c.get("sequences", 0)
